@@ -125,6 +125,28 @@ func load(cfg Config) (*Prog, error) {
 		}
 	}
 	all := ssautil.AllFunctions(prog)
+	// methods of generic named types are not in any instantiated method set: add their generic bodies
+	for _, ip := range initial {
+		if !strings.HasPrefix(ip.PkgPath, modPath) {
+			continue
+		}
+		sc := ip.Types.Scope()
+		for _, n := range sc.Names() {
+			tn, ok := sc.Lookup(n).(*types.TypeName)
+			if !ok {
+				continue
+			}
+			named, ok := tn.Type().(*types.Named)
+			if !ok || named.TypeParams().Len() == 0 {
+				continue
+			}
+			for i := 0; i < named.NumMethods(); i++ {
+				if f := prog.FuncValue(named.Method(i)); f != nil {
+					all[f] = true
+				}
+			}
+		}
+	}
 	for fn := range all {
 		if fn.Pkg == nil && fn.Origin() == nil {
 			// wrappers, bound methods: keep only those of arche
